@@ -16,8 +16,9 @@ def writer_bodies(F):
         if b["kind"] not in ("AssocFn", "Fn") or "src/impls/buf_bit_writer.rs" not in b["span"]:
             continue
         sf = b.get("impl_self") or ""
-        if sf.startswith(WRITER) or b["path"] in ("impls::buf_bit_writer::flush_be", "impls::buf_bit_writer::flush_le"):
-            e = "be" if (BE in sf or b["path"].endswith("flush_be")) else "le" if (LE in sf or b["path"].endswith("flush_le")) else None
+        if sf.startswith(WRITER):
+            # (module-private helpers such as the flush routines are walked in the context of these callers)
+            e = "be" if BE in sf else "le" if LE in sf else None
             tr = b.get("impl_trait_def") or ""
             if tr.startswith("mem_dbg") or tr.startswith("std::fmt"):
                 continue
@@ -45,6 +46,23 @@ def typeid_tests(p):
     return out
 
 
+def mir_inlined(F, nm):
+    """the call event of a helper that the inline walker has walked in context (its own events follow)"""
+    bl = F.by_path.get(nm, [])
+    return len(bl) == 1 and bl[0]["kind"] in ("Fn", "AssocFn") and str(bl[0].get("vis") or "").startswith("Restricted") and not bl[0].get("impl_trait")
+
+
+def backend_events(F, p):
+    """what a path does to the backend and to the bit buffer, in order (used to compare flush routines)"""
+    out = []
+    for ev in p.calls():
+        if mir_inlined(F, ev[1]):
+            continue
+        if any(mir.mentions(a, lambda x: x[0] == "field" and x[2] in ("backend", "buffer")) for a in ev[8]):
+            out.append(ev[1].split("::")[-1])
+    return tuple(out)
+
+
 def backend_derived(t):
     return mir.mentions(t, lambda x: x[0] == "field" and x[2] == "backend")
 
@@ -53,15 +71,25 @@ def run_structural(chk, F):
     bodies = writer_bodies(F)
     chk.rule("W1.append_only", floor=14, doc="only WordWrite::write_word / WordWrite::flush are invoked on the backend (no seek/read/other &mut escape)")
     chk.rule("W2.endianness", floor=8, doc="every word handed to write_word was last transformed by to_be (BE code) / to_le (LE code), or is W::ZERO")
-    chk.rule("W3.drop", floor=6, doc="Drop flushes with the routine of the stream's endianness; into_inner flushes before moving the backend out and forgets self; flush_be/flush_le end every successful path with backend.flush()")
+    chk.rule("W3.drop", floor=4, doc="Drop does to the backend and the buffer exactly what BitWrite<E>::flush of the stream endianness does (helpers walked in context); into_inner flushes before moving the backend out and forgets self; every successful path of flush ends with backend.flush()")
     n_ww = 0
     for b, e in bodies:
         bad = []
         wbad = []
         sites = set()
-        for p in mir.Walker(b, unroll=0).run():
+        for p in mir.walk_inline(b, F, unroll=0):
+            pe = e
+            if pe is None:
+                # generic over the endianness (Drop): decided by the TypeId test taken on this path
+                tt = typeid_tests(p)
+                if len(tt) == 1 and "E" in tt[0][:2]:
+                    other = tt[0][1] if tt[0][0] == "E" else tt[0][0]
+                    if other in (LE, BE):
+                        pe = "le" if ((other == LE) == tt[0][2]) else "be"
             for ev in p.calls():
                 if not any(backend_derived(a) for a in ev[8]):
+                    continue
+                if mir_inlined(F, ev[1]):
                     continue
                 nm = ev[1]
                 if nm in ("traits::words::WordWrite::write_word", "traits::words::WordWrite::flush"):
@@ -73,10 +101,7 @@ def run_structural(chk, F):
                             okw = True
                         elif w[0] == "app" and w[1] in ("common_traits::Integer::to_be", "common_traits::Integer::to_le"):
                             conv = "be" if w[1].endswith("to_be") else "le"
-                            okw = (e is None) or conv == e
-                            if e is None:
-                                # generic helper: endianness decided by the caller's TypeId test
-                                okw = True
+                            okw = conv == pe
                         if not okw:
                             wbad.append("write_word(%s)" % mir.fmt(w)[:70])
                     continue
@@ -95,26 +120,31 @@ def run_structural(chk, F):
     chk.rule("W2.sites", floor=1, doc="number of distinct write_word call sites seen")
     chk.expect("W2.sites", "count", n_ww >= 8, "only %d write_word call sites found in buf_bit_writer.rs (expected >= 8: the rule would be close to vacuous)" % n_ww, sample={"sites": n_ww})
     # W3
+    flush = {e: F.one(name="flush", trait_is="traits::bits::BitWrite<%s>" % ety, impl_self=WRITER) for e, ety in (("be", BE), ("le", LE))}
+    sigs = {e: {backend_events(F, p) for p in mir.walk_inline(flush[e], F)} for e in flush}
     d = F.one(name="drop", trait_is="std::ops::Drop", impl_self=WRITER)
     okd = True
     why = []
     seen = set()
-    for p in mir.walk(d):
+    for p in mir.walk_inline(d, F):
         tests = typeid_tests(p)
-        fl = [ev[1].split("::")[-1] for ev in p.calls() if ev[1].startswith("impls::buf_bit_writer::flush_")]
-        if len(tests) != 1 or len(fl) != 1:
+        if len(tests) != 1:
             okd = False
-            why.append("path with %d endianness tests and %d flush calls" % (len(tests), len(fl)))
+            why.append("path with %d endianness tests" % len(tests))
             continue
         a, bb, truth = tests[0]
         other = bb if a == "E" else a
-        is_le = (other == LE) == truth
-        want = "flush_le" if is_le else "flush_be"
-        seen.add(want)
-        if "E" not in (a, bb) or other not in (LE, BE) or fl[0] != want:
+        if "E" not in (a, bb) or other not in (LE, BE):
             okd = False
-            why.append("E %s %s -> %s" % ("==" if truth else "!=", other.split("::")[-1], fl[0]))
-    chk.expect("W3.drop", "drop", okd and seen == {"flush_le", "flush_be"}, "Drop for BufBitWriter dispatches wrongly: %s" % why, sample={"paths": sorted(seen)})
+            why.append("endianness test between %s and %s" % (a, bb))
+            continue
+        e = "le" if ((other == LE) == truth) else "be"
+        seen.add(e)
+        sig = backend_events(F, p)
+        if sig not in sigs[e]:
+            okd = False
+            why.append("E %s %s -> %s, which is not what BitWrite<%s>::flush does (%s)" % ("==" if truth else "!=", other.split("::")[-1], list(sig), e.upper(), sorted(map(list, sigs[e]))[:3]))
+    chk.expect("W3.drop", "drop", okd and seen == {"le", "be"}, "Drop for BufBitWriter dispatches wrongly: %s" % why, sample={"paths": sorted(seen)})
     ii = F.body("impls::buf_bit_writer::BufBitWriter::<E, WW, WP>::into_inner")
     oki = True
     for p in mir.walk(ii):
@@ -125,25 +155,18 @@ def run_structural(chk, F):
         else:
             oki = oki and "std::ptr::read" not in names
     chk.expect("W3.drop", "into_inner", oki, "into_inner does not flush exactly once before moving the backend out / forgetting self")
-    # flush_be / flush_le: every successful path ends by flushing the backend (after the padded word, if any)
-    for nm in ("flush_be", "flush_le"):
-        b = F.body("impls::buf_bit_writer::" + nm)
+    # flush of either endianness: every successful path ends by flushing the backend (after the padded word, if any)
+    for e in ("be", "le"):
         okf, n = True, 0
-        for p in mir.walk(b):
+        for p in mir.walk_inline(flush[e], F):
             r = p.ret
             if p.end[0] != "return" or not (isinstance(r, tuple) and r[0] == "agg" and r[3] == "Ok"):
                 continue
             n += 1
-            names = [ev[1] for ev in p.calls() if any(backend_derived(a) for a in ev[8])]
+            names = [ev[1] for ev in p.calls() if any(backend_derived(a) for a in ev[8]) and not mir_inlined(F, ev[1])]
             okf = okf and names[-1:] == ["traits::words::WordWrite::flush"]
-        chk.expect("W3.drop", nm + ".through", okf and n >= 1,
-                   "impls::buf_bit_writer::%s has a successful path that does not end with backend.flush(): buffered bytes of the sink stay unwritten and its flush errors are lost" % nm)
-    # flush() of each endianness delegates to its own helper
-    for e, ety in (("be", BE), ("le", LE)):
-        b = F.one(name="flush", trait_is="traits::bits::BitWrite<%s>" % ety, impl_self=WRITER)
-        ps = [p for p in mir.walk(b) if p.end[0] == "return"]
-        ok = len(ps) == 1 and [ev[1] for ev in ps[0].calls()] == ["impls::buf_bit_writer::flush_" + e] and ps[0].ret == ps[0].calls()[0][3]
-        chk.expect("W3.drop", "flush_" + e, ok, "BitWrite<%s>::flush is not flush_%s(self)" % (e.upper(), e))
+        chk.expect("W3.drop", "flush_%s.through" % e, okf and n >= 1,
+                   "BitWrite<%s>::flush of the buffered writer has a successful path that does not end with backend.flush(): buffered bytes of the sink stay unwritten and its flush errors are lost" % e.upper())
 
 
 def run_all(chk, fsets, tier):
@@ -165,7 +188,7 @@ def run_all(chk, fsets, tier):
         import rules_seq
         chk.rule("W6.content", floor=60 if i == 0 else 0,
                  doc="bit-sequence domain: with P the pending bits and F the field appended by the call (write_bits: value[0..n); write_unary: v zeros and a one; flush: zero padding), every word handed to the backend is exactly the next W bits of P ++ F in stream order (BE from the top, LE from the bottom) and the buffer keeps exactly the rest where the next call expects it; W in {8..128}, all paths, loops unrolled (write_bits) or summarised (write_unary)")
-        rules_seq.run_parallel(chk, F, fs, [("writer", "W6.content", nm) for nm in ("write_bits", "write_unary", "flush_be", "flush_le")])
+        rules_seq.run_parallel(chk, F, fs, [("writer", "W6.content", nm) for nm in ("write_bits", "write_unary", "flush")])
     if "checks" not in fsets:
         # quick tier: the `checks` build of the three primitives is still analysed numerically (its argument assertion computes a
         # mask the default build does not have)
